@@ -160,6 +160,33 @@ void perturb(NifFile& nif, uint64_t seed) {
 	}
 }
 } // namespace vh
+namespace vh {
+// generated instances can be unloadable (a reader fault on arbitrary counts is C15/C16 matter): generation + load are
+// probed in a child of their own; "ok" for other sources
+std::string probeSynth(const std::string& src) {
+	if (src.rfind("synth:", 0) != 0)
+		return "ok";
+	return forked([&]() -> std::string {
+		auto f = split(src, ':');
+		size_t nf = f.size();
+		if (nf < 6)
+			return std::string("bad-source");
+		std::string ty = f[1];
+		for (size_t k = 2; k + 4 < nf; ++k)
+			ty += ":" + f[k];
+		NifFile tmp, nif;
+		if (!synthModel(tmp, ty, f[nf - 4], std::stoull(f[nf - 3]), std::stoi(f[nf - 2]), static_cast<uint32_t>(std::stoul(f[nf - 1]))))
+			return std::string("unknown-type");
+		std::stringstream ss(std::ios::in | std::ios::out | std::ios::binary);
+		NifSaveOptions so;
+		so.optimize = so.sortBlocks = false;
+		if (tmp.Save(ss, so) != 0)
+			return std::string("save-failed");
+		ss.seekg(0);
+		return std::string(nif.Load(ss) == 0 ? "ok" : "load-failed");
+	}, 60);
+}
+} // namespace vh
 namespace {
 NifSaveOptions so0(const std::string& mode) {
 	NifSaveOptions so;
@@ -193,28 +220,8 @@ uint64_t h64(const std::string& s) {
 }
 // c02.run <load:path | synth:type:ver:seed:n:maxc | mesh:...> <raw|default> [edit:<seed>:<n>]
 std::string run(const Args& a) {
-	// generated instances can be unloadable (a reader fault on arbitrary counts is C15/C16 matter, not a save effect):
-	// probe generation + load in a child of its own first
-	if (a[1].rfind("synth:", 0) == 0) {
-		std::string probe = forked([&]() -> std::string {
-			auto f = split(a[1], ':');
-			size_t nf = f.size();
-			if (nf < 6)
-				return std::string("bad-source");
-			std::string ty = f[1];
-			for (size_t k = 2; k + 4 < nf; ++k)
-				ty += ":" + f[k];
-			NifFile tmp, nif;
-			if (!synthModel(tmp, ty, f[nf - 4], std::stoull(f[nf - 3]), std::stoi(f[nf - 2]), static_cast<uint32_t>(std::stoul(f[nf - 1]))))
-				return std::string("unknown-type");
-			std::stringstream ss(std::ios::in | std::ios::out | std::ios::binary);
-			NifSaveOptions so;
-			so.optimize = so.sortBlocks = false;
-			if (tmp.Save(ss, so) != 0)
-				return std::string("save-failed");
-			ss.seekg(0);
-			return std::string(nif.Load(ss) == 0 ? "ok" : "load-failed");
-		}, 60);
+	{
+		std::string probe = probeSynth(a[1]);
 		if (probe != "ok")
 			return "unloadable-synth " + probe;
 	}
